@@ -298,9 +298,12 @@ def h_file_generator(ex):
         if ex.twin == 'reversed' and len(expected) > 1:
             expected = expected[::-1]
         if not any(lens):
-            ex.raises(lambda: gen.FileGenerator(names, slice_range=sr,
-                                                interaction_model=StubInteraction),
-                      (StopIteration,), 'empty-files-stop-immediately')
+            # nothing to replay: the generator stops (at construction or at the first
+            # request - the property does not say which) without producing an event
+            def first_event():
+                g0 = gen.FileGenerator(names, slice_range=sr, interaction_model=StubInteraction)
+                return g0.create_event()
+            ex.raises(first_event, (StopIteration,), 'empty-files-stop-without-an-event')
             return
         g = gen.FileGenerator(names, slice_range=sr, interaction_model=StubInteraction)
         c0 = ex.integer('count0', 0, 1000)
